@@ -117,6 +117,10 @@ func (e *Expr) render(b *Binder) string {
 		return "begins_with(" + b.path(*e.Path) + ", " + b.val(e.Vals[0]) + ")"
 	case "contains":
 		return "contains(" + b.path(*e.Path) + ", " + b.val(e.Vals[0]) + ")"
+	case "type":
+		return "attribute_type(" + b.path(*e.Path) + ", " + b.val(e.Vals[0]) + ")"
+	case "size=", "size<>", "size<", "size<=", "size>", "size>=":
+		return "size(" + b.path(*e.Path) + ") " + strings.TrimPrefix(e.Op, "size") + " " + b.val(e.Vals[0])
 	case "between":
 		return b.path(*e.Path) + " BETWEEN " + e.operand(b, 0) + " AND " + e.operand(b, 1)
 	case "in":
@@ -182,6 +186,28 @@ func (e *Expr) Eval(it Item) bool {
 		return ok
 	case "not_exists":
 		return !ok
+	case "type":
+		return ok && v.T == e.Vals[0].S
+	case "size=", "size<>", "size<", "size<=", "size>", "size>=":
+		// only generated for targets that hold a string or a binary there
+		n := len(v.S)
+		if v.T == "B" {
+			n = len(v.B)
+		}
+		c := NumCmp(fmt.Sprint(n), e.Vals[0].S)
+		switch strings.TrimPrefix(e.Op, "size") {
+		case "=":
+			return ok && c == 0
+		case "<>":
+			return ok && c != 0
+		case "<":
+			return ok && c < 0
+		case "<=":
+			return ok && c <= 0
+		case ">":
+			return ok && c > 0
+		}
+		return ok && c >= 0
 	}
 	if !ok {
 		return e.Op == "<>"
